@@ -66,96 +66,106 @@ func OneRound(pkgs []*packages.Package, isNew func(*types.Func) bool, overlay ma
 	callees := map[*types.Func]*inline.Callee{}
 	for _, p := range pkgs {
 		for _, f := range p.Syntax {
-			// first call of a new function in this file that is not inside a new function's own
-			// body calling itself
-			var target *ast.CallExpr
-			var tfn *types.Func
-			ast.Inspect(f, func(n ast.Node) bool {
-				if target != nil {
-					return false
-				}
-				call, ok := n.(*ast.CallExpr)
-				if !ok {
+			// first call of a new function in this file that can be inlined (a call that cannot —
+			// inside an expression and the helper has several returns, say — is passed over: the
+			// other calls of the same helper may still be statements of their own)
+			failed := map[token.Pos]bool{}
+		retry:
+			for tries := 0; tries < 64; tries++ {
+				var target *ast.CallExpr
+				var tfn *types.Func
+				ast.Inspect(f, func(n ast.Node) bool {
+					if target != nil {
+						return false
+					}
+					call, ok := n.(*ast.CallExpr)
+					if !ok {
+						return true
+					}
+					if failed[call.Pos()] {
+						return true
+					}
+					fn := typeutil.StaticCallee(p.TypesInfo, call)
+					if fn == nil {
+						return true
+					}
+					if _, ok := decls[fn]; ok {
+						target, tfn = call, fn
+						return false
+					}
 					return true
+				})
+				if target == nil {
+					break retry
 				}
-				fn := typeutil.StaticCallee(p.TypesInfo, call)
-				if fn == nil {
-					return true
+				di := decls[tfn]
+				// not a recursive call
+				if di.file == f && target.Pos() >= di.decl.Pos() && target.End() <= di.decl.End() {
+					failed[target.Pos()] = true
+					continue retry
 				}
-				if _, ok := decls[fn]; ok {
-					target, tfn = call, fn
-					return false
+				callee := callees[tfn]
+				if callee == nil {
+					cc, _, err := content(di.pkg.Fset, di.file)
+					if err != nil {
+						return nil, nil, err
+					}
+					callee, err = inline.AnalyzeCallee(func(string, ...any) {}, di.pkg.Fset, di.pkg.Types, di.pkg.TypesInfo, di.decl, cc)
+					if err != nil {
+						notes = append(notes, fmt.Sprintf("%s: not inlined (%v)", tfn.Name(), err))
+						delete(decls, tfn)
+						continue retry
+					}
+					callees[tfn] = callee
 				}
-				return true
-			})
-			if target == nil {
-				continue
-			}
-			di := decls[tfn]
-			// not a recursive call
-			if di.file == f && target.Pos() >= di.decl.Pos() && target.End() <= di.decl.End() {
-				continue
-			}
-			callee := callees[tfn]
-			if callee == nil {
-				cc, _, err := content(di.pkg.Fset, di.file)
+				src, name, err := content(p.Fset, f)
 				if err != nil {
 					return nil, nil, err
 				}
-				callee, err = inline.AnalyzeCallee(func(string, ...any) {}, di.pkg.Fset, di.pkg.Types, di.pkg.TypesInfo, di.decl, cc)
+				caller := &inline.Caller{Fset: p.Fset, Types: p.Types, Info: p.TypesInfo, File: f, Call: target}
+				res, err := inline.Inline(caller, callee, &inline.Options{Recover: true})
 				if err != nil {
-					notes = append(notes, fmt.Sprintf("%s: not inlined (%v)", tfn.Name(), err))
-					delete(decls, tfn)
-					continue
+					notes = append(notes, fmt.Sprintf("%s: call at %s not inlined (%v)", tfn.Name(), p.Fset.Position(target.Pos()), err))
+					failed[target.Pos()] = true
+					continue retry
 				}
-				callees[tfn] = callee
-			}
-			src, name, err := content(p.Fset, f)
-			if err != nil {
-				return nil, nil, err
-			}
-			caller := &inline.Caller{Fset: p.Fset, Types: p.Types, Info: p.TypesInfo, File: f, Call: target}
-			res, err := inline.Inline(caller, callee, &inline.Options{Recover: true})
-			if err != nil {
-				notes = append(notes, fmt.Sprintf("%s: call at %s not inlined (%v)", tfn.Name(), p.Fset.Position(target.Pos()), err))
-				delete(decls, tfn)
-				continue
-			}
-			// apply the edits (sorted, non-overlapping) to the file content
-			edits := res.Edits
-			sort.Slice(edits, func(i, j int) bool { return edits[i].Pos < edits[j].Pos })
-			tf := p.Fset.File(f.Pos())
-			var out bytes.Buffer
-			last := 0
-			for _, e := range edits {
-				s, en := tf.Offset(e.Pos), tf.Offset(e.End)
-				if s < last || en < s || en > len(src) {
-					return nil, nil, fmt.Errorf("inliner returned overlapping edits for %s", name)
+				// apply the edits (sorted, non-overlapping) to the file content
+				edits := res.Edits
+				sort.Slice(edits, func(i, j int) bool { return edits[i].Pos < edits[j].Pos })
+				tf := p.Fset.File(f.Pos())
+				var out bytes.Buffer
+				last := 0
+				for _, e := range edits {
+					s, en := tf.Offset(e.Pos), tf.Offset(e.End)
+					if s < last || en < s || en > len(src) {
+						return nil, nil, fmt.Errorf("inliner returned overlapping edits for %s", name)
+					}
+					out.Write(src[last:s])
+					out.Write(e.NewText)
+					last = en
 				}
-				out.Write(src[last:s])
-				out.Write(e.NewText)
-				last = en
-			}
-			out.Write(src[last:])
-			how := "substituted"
-			if res.Literalized {
-				// a helper with several returns comes back as a function literal called on the
-				// spot, which is no closer to the original shape than the call was. Where the call
-				// is a statement of its own (x, err = h(..), x, err := h(..), return h(..), h(..))
-				// the literal is opened up: parameters bound in a block, `return` turned into an
-				// assignment to result temporaries and a break out of a labelled switch.
-				flat, ok := openLiteral(out.Bytes(), name)
-				if !ok {
-					notes = append(notes, fmt.Sprintf("%s: left as a call (it has several returns and the call is not a statement of its own)", tfn.Name()))
-					delete(decls, tfn)
-					continue
+				out.Write(src[last:])
+				how := "substituted"
+				if res.Literalized {
+					// a helper with several returns comes back as a function literal called on the
+					// spot, which is no closer to the original shape than the call was. Where the call
+					// is a statement of its own (x, err = h(..), x, err := h(..), return h(..), h(..))
+					// the literal is opened up: parameters bound in a block, `return` turned into an
+					// assignment to result temporaries and a break out of a labelled switch.
+					flat, ok := openLiteral(out.Bytes(), name)
+					if !ok {
+						notes = append(notes, fmt.Sprintf("%s: left as a call at %s (the inliner needs a function literal there and the call is not a statement of its own)", tfn.Name(), p.Fset.Position(target.Pos())))
+						failed[target.Pos()] = true
+						continue retry
+					}
+					out.Reset()
+					out.Write(flat)
+					how = "opened up (several returns)"
 				}
-				out.Reset()
-				out.Write(flat)
-				how = "opened up (several returns)"
+				changed[name] = out.Bytes()
+				notes = append(notes, fmt.Sprintf("%s inlined into its caller at %s (%s)", tfn.Name(), p.Fset.Position(target.Pos()), how))
+				break retry
 			}
-			changed[name] = out.Bytes()
-			notes = append(notes, fmt.Sprintf("%s inlined into its caller at %s (%s)", tfn.Name(), p.Fset.Position(target.Pos()), how))
 		}
 	}
 	return changed, notes, nil
@@ -191,11 +201,24 @@ func openLiteral(src []byte, filename string) ([]byte, bool) {
 	var lit *ast.FuncLit
 	var call *ast.CallExpr
 	n := 0
+	// (a deferred or spawned literal — defer func() { … }() — is the program's own, not the
+	// inliner's: those are left alone)
+	own := map[*ast.CallExpr]bool{}
 	ast.Inspect(f, func(nd ast.Node) bool {
-		if c, ok := nd.(*ast.CallExpr); ok {
+		switch x := nd.(type) {
+		case *ast.DeferStmt:
+			own[x.Call] = true
+		case *ast.GoStmt:
+			own[x.Call] = true
+		}
+		return true
+	})
+	ast.Inspect(f, func(nd ast.Node) bool {
+		if c, ok := nd.(*ast.CallExpr); ok && !own[c] {
 			if l, ok := c.Fun.(*ast.FuncLit); ok {
 				n++
 				lit, call = l, c
+				return false // literals inside it belong to it
 			}
 		}
 		return true
@@ -253,8 +276,14 @@ func openLiteral(src []byte, filename string) ([]byte, bool) {
 		}
 		return true
 	})
-	if bad || lit.Type.TypeParams != nil {
+	if lit.Type.TypeParams != nil {
 		return nil, false
+	}
+	if bad {
+		// a body that defers or recovers can still take the place of a function whose whole body
+		// is `return literal(args)`: the deferred calls then run when that function returns,
+		// which is when they ran before
+		return replaceWholeBody(fset, f, lit, call)
 	}
 	// give the literal's parameters and named results names of their own (dv_<name>), so that
 	// nothing the block declares can shadow a variable of the enclosing function; identifiers are
@@ -764,4 +793,133 @@ func openLiteral(src []byte, filename string) ([]byte, bool) {
 		return nil, false
 	}
 	return outSrc, true
+}
+
+// replaceWholeBody: the enclosing function is  func F(...) (results) { return func(p...) (r...) { body }(args...) }.
+// Its body becomes  p... := args...; body  with the literal's named results renamed to F's (which
+// are given names if they have none), so that a deferred closure that assigns a result assigns
+// F's result.
+func replaceWholeBody(fset *token.FileSet, f *ast.File, lit *ast.FuncLit, call *ast.CallExpr) ([]byte, bool) {
+	var fd *ast.FuncDecl
+	for _, d := range f.Decls {
+		x, ok := d.(*ast.FuncDecl)
+		if !ok || x.Body == nil || len(x.Body.List) != 1 {
+			continue
+		}
+		r, ok := x.Body.List[0].(*ast.ReturnStmt)
+		if ok && len(r.Results) == 1 && r.Results[0] == ast.Expr(call) {
+			fd = x
+		}
+	}
+	if fd == nil || fd.Type.TypeParams != nil {
+		return nil, false
+	}
+	// results
+	var litRes []*ast.Ident
+	litNamed := false
+	if lit.Type.Results != nil {
+		for _, fl := range lit.Type.Results.List {
+			if len(fl.Names) == 0 {
+				litRes = append(litRes, nil)
+				continue
+			}
+			litNamed = true
+			for _, nm := range fl.Names {
+				litRes = append(litRes, nm)
+			}
+		}
+	}
+	var enclNames []string
+	enclNamed := false
+	var enclTypes []ast.Expr
+	if fd.Type.Results != nil {
+		for _, fl := range fd.Type.Results.List {
+			if len(fl.Names) == 0 {
+				enclNames = append(enclNames, "")
+				enclTypes = append(enclTypes, fl.Type)
+				continue
+			}
+			enclNamed = true
+			for _, nm := range fl.Names {
+				enclNames = append(enclNames, nm.Name)
+				enclTypes = append(enclTypes, fl.Type)
+			}
+		}
+	}
+	if len(enclNames) != len(litRes) {
+		return nil, false
+	}
+	if litNamed {
+		for _, id := range litRes {
+			if id == nil || id.Name == "_" || id.Obj == nil {
+				return nil, false
+			}
+		}
+		ren := map[*ast.Object]string{}
+		if enclNamed {
+			for i, id := range litRes {
+				if enclNames[i] == "" || enclNames[i] == "_" {
+					return nil, false
+				}
+				ren[id.Obj] = enclNames[i]
+			}
+		} else {
+			var fields []*ast.Field
+			for i, id := range litRes {
+				nn := "dvR_" + id.Name
+				ren[id.Obj] = nn
+				fields = append(fields, &ast.Field{Names: []*ast.Ident{ast.NewIdent(nn)}, Type: enclTypes[i]})
+			}
+			fd.Type.Results.List = fields
+		}
+		ast.Inspect(lit, func(nd ast.Node) bool {
+			if id, ok := nd.(*ast.Ident); ok && id.Obj != nil {
+				if nn, ok := ren[id.Obj]; ok {
+					id.Name = nn
+				}
+			}
+			return true
+		})
+	}
+	// parameters
+	var lhs []ast.Expr
+	var use []ast.Stmt
+	allBlank := true
+	if lit.Type.Params != nil {
+		for _, fl := range lit.Type.Params.List {
+			if _, variadic := fl.Type.(*ast.Ellipsis); variadic {
+				return nil, false
+			}
+			if len(fl.Names) == 0 {
+				lhs = append(lhs, ast.NewIdent("_"))
+				continue
+			}
+			for _, nm := range fl.Names {
+				lhs = append(lhs, ast.NewIdent(nm.Name))
+				if nm.Name != "_" {
+					allBlank = false
+					use = append(use, &ast.AssignStmt{Lhs: []ast.Expr{ast.NewIdent("_")}, Tok: token.ASSIGN, Rhs: []ast.Expr{ast.NewIdent(nm.Name)}})
+				}
+			}
+		}
+	}
+	if len(lhs) != len(call.Args) {
+		return nil, false
+	}
+	var body []ast.Stmt
+	if len(lhs) > 0 {
+		tok := token.DEFINE
+		if allBlank {
+			tok = token.ASSIGN
+		}
+		body = append(body, &ast.AssignStmt{Lhs: lhs, Tok: tok, Rhs: call.Args})
+		body = append(body, use...)
+	}
+	body = append(body, lit.Body.List...)
+	fd.Body.List = body
+	var out bytes.Buffer
+	if err := format.Node(&out, fset, f); err != nil {
+		return nil, false
+	}
+	return out.Bytes(), true
 }
